@@ -28,6 +28,7 @@ REPO = os.environ.get('VSYM_REPO', '/repo')
 ENGINE_PY = sys.executable
 REPLAY_PY = os.environ.get('VSYM_REPLAY_PY', '/venv/bin/python')
 MARK = '@@VSYM@@'
+OUT = os.environ.get('VSYM_OUT_DIR') or VERIF  # evidence/ and replays/ go here (mutation trials redirect it)
 
 
 def child_env():
@@ -273,13 +274,13 @@ def main(argv=None):
             r2 = run_replay(REPLAY_PY, prop, o.name, a.tier, r['args_src'], excluded)
             validated += 2
             if r1.get('holds') is False and r2.get('holds') is False:
-                os.makedirs(os.path.join(VERIF, 'replays'), exist_ok=True)
+                os.makedirs(os.path.join(OUT, 'replays'), exist_ok=True)
                 path = os.path.join('replays', '%s-%s.json' % (prop, o.name.replace('/', '_')))
                 json.dump(dict(property=prop, obligation=o.name, tier=a.tier, harness=o.fn, case=repr(o.case),
                                args_src=r['args_src'], message=r.get('ce_message'), bound=o.bound,
                                entry=o.entry, excluded=sorted(excluded),
                                replay_engine=r1, replay_repo_python=r2, **repo_state()),
-                          open(os.path.join(VERIF, path), 'w'), indent=1)
+                          open(os.path.join(OUT, path), 'w'), indent=1)
                 violations.append((o.name, path, r.get('ce_message')))
             else:
                 harness_errors.append('counterexample of %s does not reproduce concretely (args: %s; 3.11: %s; 3.12: %s)' % (
@@ -327,8 +328,8 @@ def main(argv=None):
                 'engine interpreter 3.11.7 vs repository interpreter 3.12.1: same source, stdlib semantics assumed equal',
             ],
             wall_s=round(wall, 1), violations=len(violations))
-        os.makedirs(os.path.join(VERIF, 'evidence'), exist_ok=True)
-        json.dump(ev, open(os.path.join(VERIF, 'evidence', prop + '.json'), 'w'), indent=1)
+        os.makedirs(os.path.join(OUT, 'evidence'), exist_ok=True)
+        json.dump(ev, open(os.path.join(OUT, 'evidence', prop + '.json'), 'w'), indent=1)
     print('%s %s: %d/%d obligations discharged, %d paths, %d solver queries (%.1f s solver, %.0f s cpu), wall %.0f s' % (
         prop, a.tier, discharged, n_ob, tot['paths'], tot['queries'], tot['solver_s'], tot['cpu_s'], wall))
     if violations:
